@@ -386,7 +386,7 @@ func execC13(c c13Case) vkit.Result {
 
 func TestC13(t *testing.T) {
 	vkit.Run(t, vkit.Spec[c13Case]{
-		ID: "C13",
+		ID:   "C13",
 		Rule: "rapid-generated rules files (1-3 versions, later ones an operator-style edit of goal/UseClusterSize or independent; destinations with top-level and rule-downstream TotalThroughput/EMAThroughput/WindowedThroughput samplers with and without UseClusterSize, goals 1..1000, plus a few non-throughput samplers) loaded through config.NewConfig; histories of SetPeers(n in 1..200) through peer.MockPeers callbacks, lazy creation by 1-3 workers and real reloads. After every step GoalThroughputPerSec of every throughput dynsampler behind a cached sampler (verif hook) is compared with max(1, floor(goal/peers)) resp. goal. Non-trivial: a cluster-sized sampler is created after a peer-count change, or a changed reload lies between two peer-count changes while a cluster-sized sampler is live. Distinct = distinct case JSON.",
 		Assumptions: []string{
 			"'current number of peers' = length of Peers.GetPeers() (includes this node); peer counts >= 1 only",
